@@ -358,6 +358,36 @@ def c07_template_rules(ck, F):
     facet_table(ck, F, X)
 
 
+INT_TYPES = ("i8", "i16", "i32", "i64", "i128", "isize", "u8", "u16", "u32", "u64", "u128", "usize")
+
+
+def _int_fits(src, dst):
+    from engine.rulekit.skeleton import INT_RANGES
+    if src not in INT_RANGES or dst not in INT_RANGES:
+        return False
+    return INT_RANGES[dst][0] <= INT_RANGES[src][0] and INT_RANGES[src][1] <= INT_RANGES[dst][1]
+
+
+def facet_hole_types(F, X):
+    """[(helper field, integer type of the helper field, integer type of the value written into it, emit)] for the facet constructor."""
+    helper = {}
+    for st in F.lib.items["structs"]:
+        if st["path"] == "model::helpers_content::restrictions::Restrictions":
+            for f in st["variants"][0]["fields"]:
+                m = re.match(r"^std::option::Option<(\w+)>$", f["ty"])
+                if m and m.group(1) in INT_TYPES:
+                    helper[f["name"]] = m.group(1)
+    out = []
+    for ev in X.events.get(RESTR_WRITER, []):
+        if ev.kind != "emit":
+            continue
+        m = re.match(r"^\s*(\w+): Some\(\{\}\)", ev.skeleton())
+        if m and m.group(1) in helper and len(ev.holes()) == 1:
+            ty = (ev.holes()[0][2] or "?").replace("&", "").strip()
+            out.append((m.group(1), helper[m.group(1)], ty, ev))
+    return out
+
+
 def facet_table(ck, F, X):
     from rules.c07 import FACETS
     # (a) reader: build_restrictions fills model field f from XSD facet name
@@ -429,6 +459,11 @@ def facet_table(ck, F, X):
             guard_ok = any(c[0] == "alt" and c[2] is True and _mentions_self_field(c[1], hf) for c in ev.ctx)
             if guard_ok:
                 ck.ok("R4", f"{hf}:writer", ev.site, f"model `{hf}` -> emitted `{hf}: Some(..)`")
+                for (hf2, want, got, ev2) in facet_hole_types(F, X):
+                    if hf2 == hf and not _int_fits(got, want):
+                        ck.violation("R4", f"{hf}:writer-type", ev2.site,
+                                     f"`{hf}` is emitted as a `{got}` literal into the helper field of type `Option<{want}>`: a facet value that fits "
+                                     f"`{got}` but not `{want}` yields code that does not compile instead of a bound that is enforced")
             else:
                 ck.violation("R4", f"{hf}:writer-guard", ev.site, f"`{hf}` is emitted under a condition that does not test model field `{hf}`")
         else:
